@@ -175,6 +175,36 @@ CLAIMS = {
                 technique="TLA+ design spec model-checked with TLC; MBT replay + trace validation by the TLA+ monitor"),
 }
 
+# additions of the later rounds (appended to the claim texts above)
+EXTRA = {
+    "C01": " Verifiers are obtained both directly (rp.NewIDTokenVerifier) and through rp.NewRelyingPartyOIDC(WithVerifierOpts, WithSigningAlgsFromDiscovery).",
+    "C02": " spec/KeyWiring.tla: which configured key set (op.WithAccessTokenKeySet / op.WithIDTokenHintKeySet / storage) each provider-side verifier "
+           "uses. spec/KeyRotation.tla: programs publish(S) | verify(by, kid) over ONE long-lived key set (rp.NewRemoteKeySet with its cache and refresh "
+           "transcribed in TLA+, op.OpenIDKeySet): a token is believed only under a key of the set published at the verifier's most recent download, "
+           "at most one download per verification.",
+    "C03": " The redirect_uri inside a signed request object is judged like the query parameter (rule C03.reqobj.redirect of spec/RequestObject.tla); "
+           "clients with a malformed glob pattern (Gbad) are part of the table.",
+    "C09": " A panic in a goroutine of the library that kills the executing process (no caller can recover) is classified from the crash output "
+           "(innermost non-runtime frame in github.com/zitadel/oidc), bisected to the case and reported as C09.nopanic:processCrash.",
+    "C10": " Fault kinds: plain error, context.DeadlineExceeded, a shared *oidc.Error sentinel, the storage contract's ErrDuplicateUserCode; flows "
+           "include an authorize request with an unregistered redirect URI.",
+    "C11": " Kind errStorage: the storage refuses to issue when the callback runs - a plain Go error (its text becomes the error_description) or an "
+           "*oidc.Error with a description over the same class alphabet (incl. %): rule C11.description. prior = failedWrite: form_post responses of "
+           "another flow whose connection broke while the page was written precede the observed response.",
+    "C14": " Entries of the Assertion table: op.VerifyJWTAssertion, jwt-bearer grant, code exchange and introspection (identity probes: the request "
+           "names the probe client next to the assertion) on both routers with the provider's own JWTProfileVerifier, and the jwt-bearer grant at the "
+           "second tenant of an issuer-from-host provider. spec/Interop.tla: the library's client helpers against both routers for every key format.",
+    "C15": " Token references may be sent without their *_token_type parameter; scope lists include none and one the storage policy strips.",
+    "C16": " The user form is configured as a path on the issuer or as the deprecated absolute UserFormURL; 40 responses per configuration.",
+    "C18": " World client cw opts into different glob patterns for login and post-logout redirects.",
+    "C19": " Endpoint tables: defaults, provider-wide custom, a legacy server constructed with its own table (with / without device authorization); "
+           "issuer strings = scheme x host x decoration (path, slash, query, fragment, ...) x insecure opt-in x constructor.",
+    "C20": " Further cells: a caller-owned interceptor chain and the order in which a router built from it earlier runs it; two providers with own "
+           "storages and keys whose key ids coincide must each sign with their own key (rule C20.instances: cells with one right value at any time).",
+}
+for _p, _t in EXTRA.items():
+    CLAIMS[_p]["text"] += _t
+
 NOT_APPLICABLE = {}
 
 
